@@ -110,3 +110,37 @@ vk_harness!(c10_parameter_names_are_local_to_their_function, {
     vk_cover!(f1 == 0 && f2 == 1, "reach: FNA vs FNA$");
     vk_cover!(f1 == f2, "reach: same function");
 });
+
+// ---------------------------------------------------------------------------------------------------------------
+// C19: parser columns count CHARACTERS of the listed text
+
+//@ prop: C19
+//@ tier: quick
+//@ unwind: 12
+//@ encodes: BasicParser::next (column tracking); Token / Literal as Display
+//@ bounds: token stream  "<c>" blank(s) :  with <c> any Unicode scalar value (1 to 4 bytes in UTF-8) and 1..=3 blanks; the columns of the string literal and of the colon are checked (whole-statement parsing is outside: it did not finish in 15 minutes)
+vk_harness!(c19_columns_count_characters, {
+    let cp = vk::any_u32();
+    vk::assume(cp <= 0x10FFFF && !(cp >= 0xD800 && cp <= 0xDFFF));
+    let c = match char::from_u32(cp) {
+        Some(c) => c,
+        None => return,
+    };
+    let mut s = String::new();
+    s.push(c);
+    let blanks = 1 + vk::any_below(3) as usize;
+    let mut tokens: Vec<Token> = Vec::new();
+    tokens.push(Token::Literal(Literal::String(s)));
+    tokens.push(Token::Whitespace(blanks));
+    tokens.push(Token::Colon);
+    let mut p = BasicParser { token_stream: tokens.iter(), peeked: None, rem: false, col: 0..0 };
+    let t1 = p.next();
+    vk_check!(matches!(t1, Some(Token::Literal(_))), "C19: the parser hands out the string literal first");
+    vk_check!(p.col.start == 0 && p.col.end == 3, "C19: a quoted one-character string occupies three CHARACTER columns, whatever its byte length");
+    let t2 = p.next();
+    vk_check!(matches!(t2, Some(Token::Colon)), "C19: blanks are skipped");
+    vk_check!(p.col.start == 3 + blanks && p.col.end == 4 + blanks, "C19: the column of a token is the number of characters listed before it");
+    vk_cover!(cp >= 0x10000, "reach: four-byte character");
+    vk_cover!(cp < 0x80, "reach: ASCII character");
+    core::mem::forget(tokens);
+});
